@@ -167,7 +167,27 @@ class WebProcessorSession(BaseProcessorSession):
                 url_record.url_info.scheme == 'http':
             return
 
-        request.fields['Referer'] = url_record.parent_url
+        request.fields['Referer'] = cls._strip_userinfo(url_record.parent_url)
+
+    @classmethod
+    def _strip_userinfo(cls, url: str) -> str:
+        '''Return the URL without the user name and password.
+
+        The referrer must not carry them to other servers (rfc7231 section
+        5.5.2).
+        '''
+        scheme, sep, rest = url.partition('://')
+
+        if not sep:
+            return url
+
+        authority, slash, remainder = rest.partition('/')
+        userinfo, at, host = authority.rpartition('@')
+
+        if not at:
+            return url
+
+        return '{}://{}{}{}'.format(scheme, host, slash, remainder)
 
     @asyncio.coroutine
     def process(self):
